@@ -148,7 +148,61 @@ def gen_qb(tier, rnd, stats):
     return b
 
 
-GENERATORS = {"bv": gen_bv, "it": gen_it, "qb": gen_qb}
+def gen_conv(tier, rnd, stats):
+    """every conversion chain of the type-state machine LibConv, replayed on real values"""
+    cfg = "Gen_conv_%s.cfg" % tier
+    behs, states, trans, dt = tlc_behaviours(cfg, "MC_LibConv.tla")
+    stats["mc"].append({"cfg": cfg, "role": "behaviour generator", "states": states, "transitions": trans, "behaviours": len(behs), "wall_s": round(dt, 1)})
+    stats["states"] += states
+    stats["transitions"] += trans
+    b = Beh()
+    types = C.rotate(C.UTYPES, rnd)
+    bit_lens = C.rotate([0, 1, 63, 64, 65, 511, 512, 513, 1030, 2100], rnd)
+    quad_lens = C.rotate([0, 1, 127, 128, 129, 255, 256, 257, 520, 1100], rnd)
+    final_kind = {"into_bv": "BV", "into_bvm": "BVM", "rs_narrow": "RSN", "rs_narrow_from": "RSN", "rs_wide": "RSW", "rs_wide_from": "RSW",
+                  "da0": "DA0", "da1": "DA1", "qbuild": "QV", "rsq256": "RSQ256", "rsq512": "RSQ512"}
+    for h in behs:
+        start, ms = h["start"], h["ms"]
+        b.reset()
+        kind = start
+        ty = "u8"
+        if start in C.TREE_KINDS:
+            ty = next(types)
+            huff = start.startswith("H")
+            n = rnd.choice([0, 1, 9, 70, 300])
+            alph = [0, 1, 2, min(C.tmax(ty), 9), min(C.tmax(ty), 200), min(C.tmax(ty), 70000)]
+            s = Seqn.from_values(C.rand_seq(rnd, n, alph) if not huff else C.skewed_seq(rnd, n, sorted(set(alph)), 1.7))
+            o = b.newt(start, ty, rnd.choice(["new", "from_vec", "collect"]), s)
+        elif start in ("QB", "QV"):
+            n = next(quad_lens)
+            s = Seqn.from_values(C.rand_seq(rnd, n, [0, 1, 2, 3]))
+            o = b.newq(start, "u8", "collect", s)
+        else:
+            n = next(bit_lens)
+            s = Seqn.from_values(C.rand_seq(rnd, n, [0, 1]) if rnd.random() < 0.7 else C.rand_seq(rnd, n, [0]) + ([1] if n else []))
+            o = b.newb(start, "bools", s)
+        for m in ms:
+            o = b.conv(o, m, keep=0)
+            kind = final_kind.get(m, kind)
+        # observations of the final kind
+        if kind in C.TREE_KINDS:
+            C.tree_queries(b, o, s, ty, rnd, nrand=6)
+        elif kind in ("QV", "RSQ256", "RSQ512"):
+            C.quad_queries(b, o, s, rnd, rs=(kind != "QV"))
+            ref = b.newq(kind, "u8", "collect", s)
+            b.eq(o, ref)
+        elif kind in ("BV", "BVM"):
+            C.bvm_observe(b, o, s.values(), rnd, kind=kind, light=True)
+            ref = b.newb(kind, "bools", s)
+            b.eq(o, ref)
+        elif kind != "QB":
+            C.bit_rs_queries(b, o, s, rnd, rank=kind in ("RSN", "RSW"), select0=True)
+            ref = b.newb(kind, "new", s)
+            b.eq(o, ref)
+    return b
+
+
+GENERATORS = {"bv": gen_bv, "it": gen_it, "qb": gen_qb, "conv": gen_conv}
 
 
 def generate(spec, tier, rnd, stats):
